@@ -89,6 +89,8 @@ LAWS = [
     ('k1*X^(2^Y)/50', 'nested-power-right'), ('k1*exp(-X)', 'exp'), ('k1*ln(X+1)', 'ln'), ('abs(X-Y)', 'abs'),
     ('k1*X/(K+X)', 'rational'), ('k1*min(X,Y)', 'min'), ('max(X,2)*k1', 'max'), ('-(X-10)*k1', 'unary-minus'),
     ('k1*X - k2*Y + 20', 'difference'), ('(k1+k2)*X/(1+Y/K)', 'grouping'), ('k1*(X^2)^Y/50', 'nested-power-left-var'),
+    ('k1*((X^2)^Y)^0.5/20', 'nested-power-triple-left'), ('k1*((X^K)^2)^(Y^2)/1000 + ((Y^2)^K)^2/500', 'nested-power-mixed'),
+    ('k1*exp(-((X^2)^0.5)^Y/10)', 'nested-power-in-function'),
 ]
 
 
@@ -131,6 +133,12 @@ def documents(tier):
         for seq in itertools.permutations(menu, n):
             out.append(dict(tag='rules:' + '+'.join(k[0][0] + ('s' if k[1] in ('W', 'Z') else 'p') for k in seq), species=sp4, params=par4,
                             rules=list(seq), reactions=rx4))
+    # a local parameter with the same id and the same value as a global that a rule assigns (the local stays constant)
+    for order in ((0, 1), (1, 0)):
+        rxs = [dict(id='r1', reactants=[('X', 1)], products=[('Y', 1)], law='q*X', locals=[('q', 0.5)]),
+               dict(id='r2', reactants=[('Y', 1)], products=[('X', 1)], law='q*Y')]
+        for rules in ([('assignment', 'q', '2*k2 + X/10')], [('rate', 'g', '0.3*Y'), ('assignment', 'q', '2*k2 + X/10')]):
+            out.append(dict(tag='locals-vs-ruled-global', species=sp4, params=par4, rules=rules, reactions=[rxs[i] for i in order]))
     # two rules of the same kind in a row (state carried between iterations must not matter)
     extra = [('assignment', 'W', '0.1*X + Y'), ('rate', 'Z', 'k1 + 0.2*X'), ('rate', 'Y', '0.05*X'), ('assignment', 'q', '2*k2 + X/10')]
     for seq in itertools.permutations(extra, 3 if tier == 'quick' else 4):
